@@ -613,7 +613,7 @@ def _gen_clippath(draw, cx):
         cp["a"]["transform"] = draw(transform_list(cx.box))
         cx.feat.add("clippath-transform" + ("+nested-clip" if has_nested else ""))
     if cx.cfg.clip_rule_on_clippath and draw(st.integers(0, 3)) == 0:
-        cp["a"]["clip-rule"] = "evenodd"
+        cp["a"]["clip-rule"] = draw(st.sampled_from(["evenodd", "evenodd", "evenodd", "nonzero"]))
         cx.feat.add("clip-rule-on-clipPath")
     cx.clips.append(cid)
     return cp
@@ -712,6 +712,14 @@ def document_ast(draw, cfg: Cfg, hook=None, root_hook=None):
     if cfg.clip:
         for _ in range(draw(st.sampled_from([1, 1, 2, 3]))):
             defs["c"].append(_gen_clippath(draw, cx))
+        if draw(st.integers(0, 2)) == 0:
+            # clip-rule is inherited: a value on an ancestor of the clipPath elements applies to children without their
+            # own, unless the clipPath itself (the nearer ancestor) says otherwise - so prefer the opposite of a value
+            # that some clipPath states itself
+            own = [c["a"]["clip-rule"] for c in defs["c"] if c["tag"] == "clipPath" and "clip-rule" in c["a"]]
+            val = {"evenodd": "nonzero", "nonzero": "evenodd"}[own[0]] if own and draw(st.integers(0, 3)) else draw(st.sampled_from(["evenodd", "nonzero"]))
+            (defs["a"] if draw(st.booleans()) else defs["s"])["clip-rule"] = val
+            cx.feat.add("clip-rule-on-defs")
     if cfg.use and draw(st.booleans()):
         # reusable content defined in defs (not rendered directly)
         for _ in range(draw(st.integers(1, 2))):
